@@ -14,12 +14,13 @@ import (
 func init() {
 	Registry["C38"] = RuleDef{Module: "rueidislimiter", Run: runC38,
 		Technique:   "guard/def-use rules over the SSA of AllowN: what the admission flag, the remaining count and the reset time are computed from; delegation constants of Check/Allow; single atomic server round trip",
-		Explanation: "Decides the client-side arithmetic only: (R38a) Result.Allowed can be true only on the path where the counter value returned by the script (first reply element) is <= the limit of the option in effect, and for n = 0 only when it is < the limit; Remaining is max(limit - counter, 0) and ResetAtMs the second reply element; (R38b) Check delegates with n = 0 and Allow with n = 1 to AllowN, which rejects negative n before any request; (R38c) each AllowN performs exactly one script execution (the counter read-modify-write is a single atomic server-side step), its first argument being the decimal n and its keys the identifier's counter key and that key + \":ex\"; (R38d) the constructor rejects non-positive limits and windows; (R38e) in the embedded script text the counter key and the window marker are created with the same absolute expiry and the counter is advanced by exactly one INCRBY of ARGV[1] (a lint over the script source, not an analysis of Lua semantics).",
+		Explanation: "Decides the client-side arithmetic only: (R38a) Result.Allowed can be true only on the path where the counter value returned by the script (first reply element) is <= the limit of the option in effect, and for n = 0 only when it is < the limit; Remaining is max(limit - counter, 0) and ResetAtMs the second reply element; (R38b) Check delegates with n = 0 and Allow with n = 1 to AllowN, which rejects negative n before any request; (R38c) each AllowN performs exactly one script execution (the counter read-modify-write is a single atomic server-side step), its first argument being the decimal n and its keys the identifier's counter key and that key + \":ex\"; (R38d) the constructor rejects non-positive limits and windows; (R38e) in the embedded script text the counter key and the window marker are created with the same absolute expiry and the counter is advanced by exactly one INCRBY of ARGV[1] (a lint over the script source, not an analysis of Lua semantics) and the counting script is not built retryable (an automatic re-send would count a request twice).",
 		NotDecided:  "the Lua script itself and Redis' atomic execution of it (the heart of 'never more than the limit'), window arithmetic against the server clock, concurrent callers."}
 }
 
 func runC38(r *Report) {
 	L := "rueidis/rueidislimiter."
+	r.Anchor("R38e", "limiter script constructor", scriptConstructorRule(r, "R38e", "rueidis/rueidislimiter", "") >= 1)
 	fn := r.FnAnchor("R38a", L+"(*rateLimiter).AllowN")
 	if fn == nil {
 		return
